@@ -1,6 +1,209 @@
-(* C04 — Account ledger. Statements only. *)
-From HostdBase Require Import Base.
-From HostdLedger Require Import Model Proofs.
+(* C04 — Account ledger: no overdraft, no double spend, value conserved.
+   Statements only; every proof is [exact lemma].  Model: Ledger/Model.v (one [op] = one
+   AccountManager/Budget method body under am.mu, or one store transaction), so a list of
+   ops is a schedule of concurrent RPCs at the granularity at which the code serialises them.
 
-Example c04_nonvacuous : snd (step init (Balance 1)) = OBal 0.
-Proof. vm_compute; reflexivity. Qed.
+   Hypotheses used below, both on the INPUT history only:
+   - [Forall wf_op l]: an RHP4 credit is called with usage.AccountFunding = sum of its deposits
+     (what coreutils' RPCFundAccounts/RPCReplenishAccounts pass; the store trusts its caller);
+   - [atts l < two128]: the sum of all amounts anybody ever tries to deposit stays below 2^128
+     hastings (the coin supply is < 2^116 H); without it Currency.Add overflow panics exist.
+   - [clean r init l]: no RHP4 debit (r = false), resp. no RHP4 debit or credit (r = true), with
+     a non-zero amount hits an account while an RHP3 budget is open on the same key.  Without
+     it the reservation guard is FALSE of the code (c04_*_refuted; known finding). *)
+From HostdBase Require Import Base.
+From HostdLedger Require Import Model Lib Proofs Proofs2 Proofs3.
+
+(* 1. "An account's balance always equals the sum of accepted deposits minus the sum of
+      committed withdrawals and is never negative" — stated in N without truncation:
+      balance + withdrawals = deposits. *)
+Theorem c04_balance_is_deposits_minus_withdrawals : forall (l : list op) (a : N),
+  Forall wf_op l -> (atts l < two128)%N ->
+  (sbal (runs init l) a + withdrawn init l a = deposited init l a)%N.
+Proof. exact balance_is_deposits_minus_withdrawals. Qed.
+Print Assumptions c04_balance_is_deposits_minus_withdrawals.
+
+(* ... and no call ever panics (no Currency.Sub underflow anywhere: balances, metric, in-memory
+   state); Spend/Refund panic only by their documented contract and then change nothing. *)
+Theorem c04_never_negative_no_panic : forall (l : list op) (o : op),
+  Forall wf_op l -> wf_op o -> (atts l + att o < two128)%N ->
+  match o with Spend _ _ | Refund _ _ => False | _ => True end ->
+  snd (step (runs init l) o) <> OPanic.
+Proof. exact history_never_panics. Qed.
+Print Assumptions c04_never_negative_no_panic.
+
+Theorem c04_spend_refund_panic_changes_nothing : forall s b u,
+  (snd (step s (Spend b u)) = OPanic -> fst (step s (Spend b u)) = s) /\
+  (snd (step s (Refund b u)) = OPanic -> fst (step s (Refund b u)) = s).
+Proof. exact spend_refund_panic_unchanged. Qed.
+Print Assumptions c04_spend_refund_panic_changes_nothing.
+
+(* 2. Reservation guard.  Full statement: a Budget that succeeds is covered by the balance minus
+      all other outstanding reservations, in every history:
+        forall l a amt rok, snd (step (runs init l) (NewBudget a amt rok)) = ODone ->
+                            amt + openmax (runs init l) a <= sbal (runs init l) a.
+      FALSE of the faithful model (c04_budget_guard_refuted); it holds for every history in which
+      no RHP4 debit interferes with an open RHP3 budget, and always w.r.t. the balance the manager
+      holds in memory. *)
+Theorem c04_budget_guard_partial : forall l a amt rok,
+  Forall wf_op l -> (atts l < two128)%N -> clean false init l = true ->
+  snd (step (runs init l) (NewBudget a amt rok)) = ODone ->
+  (amt + openmax (runs init l) a <= sbal (runs init l) a)%N.
+Proof. exact budget_guard_partial. Qed.
+Print Assumptions c04_budget_guard_partial.
+
+Theorem c04_budget_guard_in_memory : forall s a amt rok s',
+  step s (NewBudget a amt rok) = (s', ODone) -> (amt <= get_balance s a)%N.
+Proof. exact budget_guard_mem. Qed.
+Print Assumptions c04_budget_guard_in_memory.
+
+Theorem c04_budget_guard_refuted : exists l a amt rok,
+  Forall wf_op l /\ (atts l < two128)%N /\
+  snd (step (runs init l) (NewBudget a amt rok)) = ODone /\
+  ~ (amt + openmax (runs init l) a <= sbal (runs init l) a)%N.
+Proof. exact budget_guard_refuted. Qed.
+Print Assumptions c04_budget_guard_refuted.
+
+(* the spendable balance the manager reports is exactly balance minus open reservations *)
+Theorem c04_spendable_is_balance_minus_reservations_partial : forall l a,
+  Forall wf_op l -> (atts l < two128)%N -> clean true init l = true ->
+  (get_balance (runs init l) a + openmax (runs init l) a = sbal (runs init l) a)%N.
+Proof. exact spendable_exact. Qed.
+Print Assumptions c04_spendable_is_balance_minus_reservations_partial.
+
+(* withdrawals: an RHP4 debit succeeds only if the persisted balance covers it (always) ... *)
+Theorem c04_r4debit_covered_by_balance : forall s a amt s',
+  step s (R4Debit a amt) = (s', ODone) -> (amt <= sbal s a /\ sbal s' a = sbal s a - amt)%N.
+Proof. exact r4debit_guard. Qed.
+Print Assumptions c04_r4debit_covered_by_balance.
+
+(* ... "minus all other outstanding reservations" holds when the manager has no open RHP3 budget
+   on the key, and is refuted otherwise (same known finding) *)
+Theorem c04_r4debit_guard_partial : forall B s a amt s',
+  Inv B s -> alookup a (mem s) = None ->
+  step s (R4Debit a amt) = (s', ODone) -> (amt + openmax s a <= sbal s a)%N.
+Proof. exact r4debit_guard_partial. Qed.
+Print Assumptions c04_r4debit_guard_partial.
+
+Theorem c04_r4debit_guard_refuted : exists l a amt,
+  Forall wf_op l /\ (atts l < two128)%N /\
+  snd (step (runs init l) (R4Debit a amt)) = ODone /\
+  ~ (amt + openmax (runs init l) a <= sbal (runs init l) a)%N.
+Proof. exact r4debit_guard_refuted. Qed.
+Print Assumptions c04_r4debit_guard_refuted.
+
+(* every reachable state satisfies the ledger invariant [Inv] used as hypothesis below *)
+Theorem c04_reachable_invariant : forall l,
+  Forall wf_op l -> (atts l < two128)%N -> Inv (atts l) (runs init l).
+Proof. exact reachable_inv. Qed.
+Print Assumptions c04_reachable_invariant.
+
+(* 3. "committed reservations deduct exactly what was spent": only that account's persisted
+      balance moves, by exactly the budget's usage (<= its max); the budget is closed; its max
+      leaves the open reservations and the unspent part goes back to the spendable balance. *)
+Theorem c04_commit_exact : forall B s b bd s',
+  Inv B s -> (B < two128)%N -> nth_error (budgets s) b = Some bd -> bdone bd = false ->
+  step s (Commit b true) = (s', ODone) ->
+  let a := bacct bd in let t := usum (busage bd) in
+  (t <= bmax bd)%N /\ (sbal s' a + t = sbal s a)%N /\ (forall x, x <> a -> sbal s' x = sbal s x) /\
+  (exists bd', nth_error (budgets s') b = Some bd' /\ bdone bd' = true) /\
+  (openmax s' a + bmax bd = openmax s a)%N /\
+  (forall e', alookup a (mem s') = Some e' ->
+     exists e, alookup a (mem s) = Some e /\ mbal e' = (mbal e + (bmax bd - t))%N) /\
+  (alookup a (mem s') = None -> opencount s a = 1%N).
+Proof. exact commit_exact. Qed.
+Print Assumptions c04_commit_exact.
+
+Theorem c04_commit_returns_unspent_partial : forall B s b bd s',
+  Inv B s -> (B < two128)%N -> Kr true s ->
+  nth_error (budgets s) b = Some bd -> bdone bd = false ->
+  step s (Commit b true) = (s', ODone) ->
+  get_balance s' (bacct bd) = (get_balance s (bacct bd) + (bmax bd - usum (busage bd)))%N.
+Proof. exact commit_returns_unspent. Qed.
+Print Assumptions c04_commit_returns_unspent_partial.
+
+(* "rolled-back ... reservations return their funds": the persisted balances do not move, the
+   budget is closed and its max is spendable again *)
+Theorem c04_rollback_exact : forall B s b bd,
+  Inv B s -> (B < two128)%N -> nth_error (budgets s) b = Some bd -> bdone bd = false ->
+  let a := bacct bd in let s' := fst (step s (Rollback b)) in
+  snd (step s (Rollback b)) = ODone /\ store s' = store s /\
+  (exists bd', nth_error (budgets s') b = Some bd' /\ bdone bd' = true) /\
+  (openmax s' a + bmax bd = openmax s a)%N /\
+  (forall e', alookup a (mem s') = Some e' ->
+     exists e, alookup a (mem s) = Some e /\ mbal e' = (mbal e + bmax bd)%N) /\
+  (alookup a (mem s') = None -> opencount s a = 1%N).
+Proof. exact rollback_exact. Qed.
+Print Assumptions c04_rollback_exact.
+
+Theorem c04_rollback_returns_funds_partial : forall B s b bd,
+  Inv B s -> (B < two128)%N -> Kr true s ->
+  nth_error (budgets s) b = Some bd -> bdone bd = false ->
+  get_balance (fst (step s (Rollback b))) (bacct bd) = (get_balance s (bacct bd) + bmax bd)%N.
+Proof. exact rollback_returns_funds. Qed.
+Print Assumptions c04_rollback_returns_funds_partial.
+
+(* "... or failed reservations return their funds": a failing Budget / Commit / Credit / RHP4 call
+   changes nothing at all (a budget whose commit failed is still open and is then rolled back) *)
+Theorem c04_failed_commit_changes_nothing : forall s b sok s' e,
+  step s (Commit b sok) = (s', OErr e) -> s' = s.
+Proof. exact failed_commit_unchanged. Qed.
+Print Assumptions c04_failed_commit_changes_nothing.
+
+Theorem c04_failed_budget_changes_nothing : forall s a amt rok s' e,
+  step s (NewBudget a amt rok) = (s', OErr e) -> s' = s.
+Proof. exact failed_budget_unchanged. Qed.
+Print Assumptions c04_failed_budget_changes_nothing.
+
+Theorem c04_failed_credit_changes_nothing : forall s a amt rf ex cok s' e,
+  step s (Credit a amt rf ex cok) = (s', OErr e) -> s' = s.
+Proof. exact failed_credit_unchanged. Qed.
+Print Assumptions c04_failed_credit_changes_nothing.
+
+Theorem c04_failed_r4debit_changes_nothing : forall s a amt s' e,
+  step s (R4Debit a amt) = (s', OErr e) -> s' = s.
+Proof. exact failed_r4debit_unchanged. Qed.
+Print Assumptions c04_failed_r4debit_changes_nothing.
+
+Theorem c04_failed_r4credit_changes_nothing : forall s deps fund cok s' e,
+  step s (R4Credit deps fund cok) = (s', OErr e) -> s' = s.
+Proof. exact failed_r4credit_unchanged. Qed.
+Print Assumptions c04_failed_r4credit_changes_nothing.
+
+(* the store's own re-check never refuses a commit when no RHP4 debit interfered *)
+Theorem c04_commit_succeeds_partial : forall B s b bd,
+  Inv B s -> (B < two128)%N -> Kr false s ->
+  nth_error (budgets s) b = Some bd -> bdone bd = false ->
+  alookup (bacct bd) (store s) <> None ->
+  snd (step s (Commit b true)) = ODone.
+Proof. exact commit_succeeds. Qed.
+Print Assumptions c04_commit_succeeds_partial.
+
+(* no double spend: committing or rolling back a closed budget again has no effect *)
+Theorem c04_no_double_spend : forall s b bd sok,
+  nth_error (budgets s) b = Some bd -> bdone bd = true ->
+  step s (Commit b sok) = (s, ODone) /\ step s (Rollback b) = (s, ODone).
+Proof. exact done_budget_inert. Qed.
+Print Assumptions c04_no_double_spend.
+
+(* 4. "The reported total account balance metric equals the sum of all balances and the
+      active-account metric the number of accounts." *)
+Theorem c04_metrics_exact : forall l, Forall wf_op l -> (atts l < two128)%N ->
+  mBalance (runs init l) = asum (store (runs init l)) /\
+  mActive (runs init l) = N.of_nat (length (store (runs init l))).
+Proof. exact metrics_exact. Qed.
+Print Assumptions c04_metrics_exact.
+
+(* non-vacuity: a clean history with two open budgets on one account, a failing and a succeeding
+   commit and a rollback; the hypotheses hold and the ledger moved *)
+Definition c04_demo : list op :=
+  [SetMax 100; Credit 0 50 false false true; R4Credit [(1, 7); (0, 5)]%N 12 true;
+   NewBudget 0 30 true; NewBudget 0 20 true;
+   Spend 0 {| uRpc := 10; uStorage := 0; uEgress := 5; uIngress := 0; uRegR := 0; uRegW := 0 |};
+   Commit 0 false; Commit 0 true; Commit 0 true; Rollback 1; R4Debit 1 3].
+Example c04_nonvacuous :
+  Forall wf_op c04_demo /\ (atts c04_demo <? two128)%N = true /\ clean true init c04_demo = true /\
+  sbal (runs init c04_demo) 0 = 40%N /\ withdrawn init c04_demo 0 = 15%N /\ deposited init c04_demo 0 = 55%N /\
+  mBalance (runs init c04_demo) = 44%N /\ mActive (runs init c04_demo) = 2%N /\
+  clean false init witness_b = false.
+Proof. vm_compute. repeat split; repeat constructor. Qed.
